@@ -95,8 +95,11 @@ ScanResult Theo::scan(std::map<FileName, FileContent> files, FileName main) {
     }
     res.push_back(t);
   }
-  res.push_back(
-      Theo::Token{Theo::Token::T_EOF, "EOF", res.back().file, res.back().line});
+  if (res.empty())  // no token at all (main file absent or without tokens)
+    res.push_back(Theo::Token{Theo::Token::T_EOF, "EOF", main, 1});
+  else
+    res.push_back(Theo::Token{Theo::Token::T_EOF, "EOF", res.back().file,
+                              res.back().line});
   return {res, errors};
 }
 
